@@ -44,6 +44,17 @@ pub const LIQ: &str = "liquidator";
 pub const EVE: &str = "stranger";
 pub const TRADERS: [&str; 3] = [ALICE, BOB, CAROL];
 pub const DENOM: &str = "uwasm";
+thread_local! {
+    static DENOM_TL: std::cell::Cell<&'static str> = std::cell::Cell::new(DENOM);
+}
+/// the native collateral denom of the deployments built on this thread (default `uwasm`; the engine
+/// also accepts `ujunox`)
+pub fn denom() -> &'static str {
+    DENOM_TL.with(|c| c.get())
+}
+pub fn set_denom(d: &'static str) {
+    DENOM_TL.with(|c| c.set(d));
+}
 
 // ------------------------------------------------------------------------------------------
 // call log + fault injection
@@ -392,6 +403,12 @@ pub struct World {
     /// deployment was instantiated with and of the owner's successful UpdateConfig calls (the fee
     /// oracles use this, not the vAMM's Config query)
     pub fee_ledger: std::collections::BTreeMap<String, (Uint128, Uint128)>,
+    /// the latest price submitted to the price feed the vAMMs are CONFIGURED to read (harness
+    /// record of its own successful submissions; not the vAMM's UnderlyingPrice answer)
+    pub oracle_ledger: Option<Uint128>,
+    /// a fee pool the engine was configured with earlier and that the owner has since replaced
+    /// (tracked as account `fee_pool_old`: no longer a permitted recipient of anything)
+    pub old_feepool: Option<Addr>,
 }
 
 pub fn addr(s: &str) -> Addr {
@@ -417,12 +434,12 @@ impl World {
             .build(|router, _, storage| {
                 if native {
                     for a in funded.iter() {
-                        router.bank.0.init_balance(storage, &addr(a), vec![Coin { denom: DENOM.into(), amount: tf }]).unwrap();
+                        router.bank.0.init_balance(storage, &addr(a), vec![Coin { denom: denom().into(), amount: tf }]).unwrap();
                     }
                     router
                         .bank
                         .0
-                        .init_balance(storage, &addr("bank"), vec![Coin { denom: DENOM.into(), amount: inf }])
+                        .init_balance(storage, &addr("bank"), vec![Coin { denom: denom().into(), amount: inf }])
                         .unwrap();
                 }
             });
@@ -462,7 +479,7 @@ impl World {
         };
         let collateral = match &token {
             Some(t) => t.to_string(),
-            None => DENOM.to_string(),
+            None => denom().to_string(),
         };
         let (engine, ins) = if cfg.vamm_engine_is_owner {
             (owner.clone(), addr("insurance_fund"))
@@ -490,7 +507,7 @@ impl World {
             // fund the insurance fund
             if native {
                 ex(
-                    app.execute(addr("bank"), cosmwasm_std::CosmosMsg::Bank(BankMsg::Send { to_address: ins.to_string(), amount: vec![Coin { denom: DENOM.into(), amount: inf }] })),
+                    app.execute(addr("bank"), cosmwasm_std::CosmosMsg::Bank(BankMsg::Send { to_address: ins.to_string(), amount: vec![Coin { denom: denom().into(), amount: inf }] })),
                     "fund insurance",
                 )?;
             } else {
@@ -573,7 +590,7 @@ impl World {
                 }
             }
         }
-        let mut w = World { app, cfg, d, engine, vamms, ins, feepool, feed, token, step_no: 0, attach: None, last_spot: vec![], registered: Default::default(), fee_ledger: Default::default() };
+        let mut w = World { app, cfg, d, engine, vamms, ins, feepool, feed, token, step_no: 0, attach: None, last_spot: vec![], registered: Default::default(), fee_ledger: Default::default(), oracle_ledger: None, old_feepool: None };
         w.registered = w.vamms.iter().map(|a| a.to_string()).collect();
         w.fee_ledger = w.vamms.iter().map(|a| (a.to_string(), (w.cfg.toll, w.cfg.spread))).collect();
         let now = w.app.block_info().time.seconds();
@@ -625,6 +642,12 @@ impl World {
         v
     }
 
+    /// a second insurance-fund instance (same code, same engine) that is NOT the engine's fund
+    pub fn instantiate_second_fund(&mut self) -> Addr {
+        let id = self.app.store_code(c_ins());
+        self.app.instantiate_contract(id, addr(OWNER), &InsInit { engine: self.engine.to_string() }, &[], "insurance_fund-2", None).expect("second insurance fund")
+    }
+
     // ------------------------------------------------------------------ transactions
     pub fn exec<T: Serialize + std::fmt::Debug>(&mut self, who: &str, to: &Addr, msg: &T, funds: &[Coin]) -> Tx {
         tx_begin();
@@ -638,7 +661,7 @@ impl World {
     }
     fn funds(&self, f: Option<Uint128>) -> Vec<Coin> {
         match f {
-            Some(a) => vec![Coin { denom: DENOM.into(), amount: a }],
+            Some(a) => vec![Coin { denom: denom().into(), amount: a }],
             None => vec![],
         }
     }
@@ -748,7 +771,40 @@ impl World {
             self.exec(OWNER, &f, &mock_pricefeed::contract::ExecuteMsg::AppendPrice { key: "USD".into(), price, timestamp }, &[])
         };
         self.logtx("set_oracle", &t);
+        if t.ok {
+            self.oracle_ledger = Some(price);
+        }
         t
+    }
+    /// the owner deploys a second fee pool and re-points the engine at it; from then on `fee_pool`
+    /// names the new one (by the harness's record of the owner's successful call)
+    pub fn switch_fee_pool(&mut self) -> bool {
+        let id = self.app.store_code(c_feepool());
+        let f = self.app.instantiate_contract(id, addr(OWNER), &FeePoolInit {}, &[], "fee_pool-2", None).expect("second fee pool");
+        let ok = self.update_engine_fee_pool(f.to_string()).ok;
+        if ok {
+            self.old_feepool = Some(self.feepool.clone());
+            self.feepool = f;
+        }
+        ok
+    }
+    fn update_engine_fee_pool(&mut self, fp: String) -> Tx {
+        self.engine_exec(OWNER, &EngineExec::UpdateConfig { owner: None, insurance_fund: None, fee_pool: Some(fp), initial_margin_ratio: None, maintenance_margin_ratio: None, partial_liquidation_ratio: None, liquidation_fee: None })
+    }
+    /// the owner deploys a second (mock) price feed reporting `price` and re-points every vAMM at
+    /// it; the old feed keeps its last value. Later `set_oracle` calls go to the new feed
+    pub fn switch_feed(&mut self, price: Uint128) -> bool {
+        let id = self.app.store_code(c_feed_mock());
+        let f = self.app.instantiate_contract(id, addr(OWNER), &mock_pricefeed::contract::InstantiateMsg { oracle_hub_contract: "oracle_hub0000".into() }, &[], "pricefeed-2", None).expect("second price feed");
+        self.feed = f.clone();
+        self.cfg.real_feed = false;
+        let now = self.now();
+        let mut ok = self.set_oracle(price, now).ok;
+        for vi in 0..self.vamms.len() {
+            let m = VammExec::UpdateConfig { base_asset_holding_cap: None, open_interest_notional_cap: None, toll_ratio: None, spread_ratio: None, fluctuation_limit_ratio: None, margin_engine: None, insurance_fund: None, pricefeed: Some(f.to_string()), spot_price_twap_interval: None };
+            ok &= self.vamm_exec(OWNER, vi, &m).ok;
+        }
+        ok
     }
     pub fn update_engine(&mut self, init: Option<Uint128>, maint: Option<Uint128>, partial: Option<Uint128>, liq_fee: Option<Uint128>) -> Tx {
         self.engine_exec(
@@ -793,7 +849,7 @@ impl World {
             None => {
                 let app = &mut self.app;
                 let to = to.to_string();
-                let r = symrt::catch(|| app.execute(addr(from), cosmwasm_std::CosmosMsg::Bank(BankMsg::Send { to_address: to, amount: vec![Coin { denom: DENOM.into(), amount }] })));
+                let r = symrt::catch(|| app.execute(addr(from), cosmwasm_std::CosmosMsg::Bank(BankMsg::Send { to_address: to, amount: vec![Coin { denom: denom().into(), amount }] })));
                 match r {
                     Ok(Ok(_)) => Tx { ok: true, err: String::new(), log: vec![], attrs: vec![], msgs: vec![] },
                     Ok(Err(e)) => Tx { ok: false, err: format!("{}", e.root_cause()), log: vec![], attrs: vec![], msgs: vec![] },
@@ -922,7 +978,7 @@ impl World {
     pub fn balance(&self, who: &Addr) -> Uint128 {
         match &self.token {
             Some(t) => self.q::<cw20::BalanceResponse, _>(t, &Cw20QueryMsg::Balance { address: who.to_string() }).expect("balance").balance,
-            None => self.app.wrap().query_balance(who.to_string(), DENOM).expect("bank balance").amount,
+            None => self.app.wrap().query_balance(who.to_string(), denom()).expect("bank balance").amount,
         }
     }
     pub fn accounts(&self) -> Vec<(String, Addr)> {
@@ -930,6 +986,9 @@ impl World {
         v.push(("engine".into(), self.engine.clone()));
         v.push(("insurance_fund".into(), self.ins.clone()));
         v.push(("fee_pool".into(), self.feepool.clone()));
+        if let Some(o) = &self.old_feepool {
+            v.push(("fee_pool_old".into(), o.clone()));
+        }
         for (i, a) in self.vamms.iter().enumerate() {
             v.push((format!("vamm{}", i), a.clone()));
         }
